@@ -17,6 +17,8 @@ mod layout;
 mod objcode;
 mod object;
 mod property;
+#[cfg(feature = "yuja_qmluic_verif")]
+pub mod verif_hook;
 mod xmlutil;
 
 pub use self::binding::*; // re-export
@@ -48,6 +50,8 @@ pub fn build(
     )?;
     let object_code_maps =
         build_object_code_maps(doc, &type_space, &object_tree, base_ctx, diagnostics);
+    #[cfg(feature = "yuja_qmluic_verif")]
+    verif_hook::observe("built", &object_tree, &object_code_maps);
 
     let ctx = BuildDocContext::new(doc, &type_space, &object_tree, &object_code_maps, base_ctx);
     let form = UiForm::build(&ctx, object_tree.root(), diagnostics);
@@ -102,6 +106,9 @@ pub fn build(
             None
         }
     };
+
+    #[cfg(feature = "yuja_qmluic_verif")]
+    verif_hook::observe("final", &object_tree, &object_code_maps);
 
     Some((form, ui_support))
 }
